@@ -160,17 +160,19 @@ _fresh_memo = {}
 _fresh_lock = threading.Lock()
 
 
-def fresh_run(ctx, tree, req, log):
+def fresh_run(ctx, st, req):
     """Outcome of a fresh `plz test` (clean copy of the tree, empty plz-out, no cache); memoised per tree and request."""
-    key = hashlib.sha1(json.dumps([tree, sorted(req)], sort_keys=True).encode()).hexdigest()
+    key = hashlib.sha1(json.dumps([c11_tree(st, "@LOG@"), sorted(req)], sort_keys=True).encode()).hexdigest()
     with _fresh_lock:
         if key in _fresh_memo:
             return _fresh_memo[key]
     d = os.path.join(ctx.scratch, "fresh-%s-%d" % (key[:16], threading.get_ident()))
-    r = TRepo(d, log)
-    r.sync(tree)
+    r = TRepo(d, d + ".log")
+    r.sync(c11_tree(st, d + ".log"))
     res = run_tests(r, req)
     r.destroy()
+    if os.path.exists(d + ".log"):
+        os.remove(d + ".log")
     with _fresh_lock:
         _fresh_memo[key] = res
     return res
@@ -229,7 +231,7 @@ def c11_replay(ctx, idx, beh, opts):
                                                                       sorted(t for t in obs["cached"] if obs["cached"][t])))
         detail = dict(behaviour=beh, step=si, trace=list(trace))
         # the oracle: a fresh run of the same tree, which the spec's Fresh must predict
-        fr = fresh_run(ctx, c11_tree(st, log + ".fresh"), req, log + ".fresh")
+        fr = fresh_run(ctx, st, req)
         for t in req:
             if fr["outcome"].get(t) != expect[t]:
                 raise vlib.Infra("fresh run disagrees with the spec's Fresh for t%d (spec/harness error): spec %s, fresh run %s rc=%s\n%s\n%s"
@@ -378,7 +380,7 @@ def run_c11(ctx):
             r = vlib.tlc(ctx, "TestReuse", "GEN_TestReuse_2s%d.cfg" % (ctx.seed % 3 + 1), workers=8, timeout=600)
             behs = uniq_sorted(r.behaviours)
             total = len(behs)
-            behs = stratified([b for b in behs if c11_nontrivial(b)], kinds_of, 130, random.Random(ctx.seed))
+            behs = stratified([b for b in behs if c11_nontrivial(b)], kinds_of, 120, random.Random(ctx.seed))
         else:
             r2 = vlib.tlc(ctx, "TestReuse", "GEN_TestReuse_2.cfg", workers=8, timeout=1500)
             r3 = vlib.tlc(ctx, "TestReuse", "GEN_TestReuse_3.cfg", workers=8, timeout=3000)
